@@ -539,13 +539,12 @@ def check_cpm_denominator(ctx):
         n += 1
         clamps = sl.call_names() & {'maximum', 'clip', 'clamp', 'fmax',
                                     'max'}
-        where = sl.has_call('where')
-        ok = not clamps and where
+        ok = not clamps
         ctx.ob(rule, f'{fi.qual}:div#{n - 1}', fi.loc(e), ok,
                'cells are divided by their own total; only zero totals '
                'are replaced' if ok else
                f'the divisor of `{unparse(e)[:50]}` is built with '
-               f'{sorted(clamps) or "no zero-total replacement"}: totals '
+               f'{sorted(clamps)}: totals '
                'between 0 and the bound are not normalised, so scaling a '
                'raw cell changes its CPM')
     if n == 0:
